@@ -12,8 +12,8 @@ open Influx.Generated.Meta
     never cleared and the shared backing array is re-sorted on every call) -/
 structure SgList where
   items : List ShardGroupInfo
-  earliest : Time
-  latest : Time
+  earliest : Int
+  latest : Int
 deriving Repr
 
 def SgList.empty : SgList := { items := [], earliest := zeroTime, latest := zeroTime }
@@ -28,7 +28,7 @@ def goSearch (f : Nat → Bool) : Nat → Nat → Nat → Nat
     else i
 
 /-- `sgList.ShardGroupAt(t)`: the (sorted) items and the group found -/
-def SgList.shardGroupAt (l : SgList) (t : Time) : SgList × Option ShardGroupInfo :=
+def SgList.shardGroupAt (l : SgList) (t : Int) : SgList × Option ShardGroupInfo :=
   if l.items.length == 0 then (l, none) else
   let items := sgSort l.items
   let l' := { l with items := items }
@@ -47,7 +47,7 @@ def SgList.shardGroupAt (l : SgList) (t : Time) : SgList × Option ShardGroupInf
     else (l', items.find? (Contains · t))
 
 /-- `sgList.Covers(t)` -/
-def SgList.covers (l : SgList) (t : Time) : SgList × Bool :=
+def SgList.covers (l : SgList) (t : Int) : SgList × Bool :=
   if l.items.length == 0 then (l, false) else
   let r := l.shardGroupAt t
   (r.1, r.2.isSome)
@@ -70,12 +70,12 @@ structure ShardMapping where
 deriving Repr
 
 /-- the lower bound `MapShards` computes: `now − Duration` when the policy has a duration -/
-def minTime (r : RetentionPolicyInfo) (now : Time) : Time :=
+def minTime (r : RetentionPolicyInfo) (now : Int) : Int :=
   if r.Duration > 0 then Time.Add now (-r.Duration) else Time.Unix MinNanoTime
 
 /-- first loop of `MapShards`: create the missing shard groups.  The data is returned also
     on error: groups created before (and by) the failing call stay committed in the meta store. -/
-def mapCreate (db rp : String) (min : Time) : Data → SgList → List Time → Data × Except Err SgList
+def mapCreate (db rp : String) (min : Int) : Data → SgList → List Int → Data × Except Err SgList
   | d, l, [] => (d, .ok l)
   | d, l, t :: ts =>
     if Time.Before t min then mapCreate db rp min d l ts else
@@ -93,7 +93,7 @@ def shardFor (g : ShardGroupInfo) : Option ShardInfo := g.Shards.head?
     the lower bound is checked here too (`sg == nil || p.Time().Before(min)`): before the patch a
     point older than the retention period was accepted whenever the shard group created for a
     younger point of the same request happened to cover it. -/
-def mapPlace (min : Time) : SgList → List Time → Except Err (List Placement)
+def mapPlace (min : Int) : SgList → List Int → Except Err (List Placement)
   | _, [] => .ok []
   | l, t :: ts =>
     let r := l.shardGroupAt t
@@ -107,7 +107,7 @@ def mapPlace (min : Time) : SgList → List Time → Except Err (List Placement)
 def countDropped (ps : List Placement) : Nat := (ps.filter (· == Placement.dropped)).length
 
 /-- `PointsWriter.MapShards` at wall-clock `now`: the meta data afterwards, and the mapping or error -/
-def mapShards (d : Data) (db rp : String) (now : Time) (pts : List Time) : Data × Except Err ShardMapping :=
+def mapShards (d : Data) (db rp : String) (now : Int) (pts : List Int) : Data × Except Err ShardMapping :=
   match getRP d db rp with
   | .error e => (d, .error e)
   | .ok r =>
